@@ -22,7 +22,7 @@ const B: &str = "http://wb/";
 const OUT: &str = "http://out/";
 const ALPHA_A: u64 = 2;
 const ALPHA_B: u64 = 4;
-const TICKS: u64 = 5;
+fn ticks() -> u64 { if std::env::var("VERIF_TIER").map_or(false, |v| v == "thorough") { 6 } else { 5 } }
 
 const RULESETS: [(&str, &str); 3] = [
     ("into-window", "@prefix wa: <http://wa/> .\n@prefix wb: <http://wb/> .\n@prefix wo: <http://out/> .\n{ ?s wb:p ?o } => { ?s wa:p ?o }\n{ ?s wa:p ?o } => { ?s wo:q ?o }\n"),
@@ -72,7 +72,7 @@ fn setup(rules_n3: &str) -> (Arc<RwLock<Dictionary>>, Vec<shared::rule::Rule>) {
 
 fn histories() -> Vec<Vec<u8>> {
     let mut v: Vec<Vec<u8>> = vec![vec![]];
-    for _ in 0..TICKS { let mut n = Vec::new(); for h in &v { for x in 0..4u8 { let mut g = h.clone(); g.push(x); n.push(g); } } v = n; }
+    for _ in 0..ticks() { let mut n = Vec::new(); for h in &v { for x in 0..4u8 { let mut g = h.clone(); g.push(x); n.push(g); } } v = n; }
     v
 }
 
@@ -81,7 +81,7 @@ fn histories() -> Vec<Vec<u8>> {
         let (dict, rules) = setup(n3);
         for h in histories() {
             let mut state: SdsWithExpiry = HashMap::new();
-            for now in 0..TICKS + ALPHA_B {
+            for now in 0..ticks() + ALPHA_B {
                 let sds = sds_at(&h, now, u64::MAX);
                 state = incremental_sds_plus(&rules, &sds, &state, &dict, now);
                 let comps = all_component_iris(&sds);
@@ -98,7 +98,7 @@ fn histories() -> Vec<Vec<u8>> {
         let (dict, rules) = setup(n3);
         for h in histories().into_iter().step_by(3) {
             let mut state: SdsWithExpiry = HashMap::new();
-            for now in 0..TICKS + ALPHA_B {
+            for now in 0..ticks() + ALPHA_B {
                 let sds = sds_at(&h, now, u64::MAX);
                 state = incremental_sds_plus(&rules, &sds, &state, &dict, now);
                 // oracle: first future time at which from-scratch reasoning without further arrivals no longer has the fact
